@@ -12,7 +12,7 @@ AXIOMS = []
 TRUSTED = [
     'Coq 8.16.1 kernel; vm_compute for the correspondence evaluation; no axioms',
     'model/Store.v is hand written (ConfigParser._init_config_parser, the dictionary semantics of configparser, potable\'s collation of options); the corresponding source is asserted on the AST (harness/gen_store.py) and the model is compared with the implementation\'s resulting store on every run',
-    'text-level lexing of the INI file is by generation: keys are structures printed with varying whitespace; Python\'s configparser does the lexing (outside the model)',
+    'text level: proof/StoreText.v proves that the printed raw file is parsed (model/Ini.v) into the store; model/Ini.v restates the line parser of the stdlib configparser as the repository configures it - an assumption about a library outside the repository, compared with it on every run (generated files; the model\'s printer against the printer of the harness, text_store against the raw parser)',
     'reading: removing the last item of a section by hand also removes the section header (that is what the code does); an empty [Pair] header would otherwise give an empty table instead of an error',
 ]
 PRE = 'From V Require Import lib.Common model.Store.\nLocal Open Scope nat_scope.\n'
@@ -63,7 +63,7 @@ def gen_ops(rng, model):
     for _ in range(rng.choice([0, 0, 1, 1, 2])):
         r = rng.random()
         if r < 0.35: adds.append(['add', ('Pair',), ('pair', 'Zz', rng.choice(['Zz', model['els'][0]])), rng.randint(0, 4), rng.choice(sc.PAIR_DEFS + GE_DEFS)])
-        elif r < 0.55: adds.append(['add', ('Other', 'Extra'), ('opt', 'k%d' % rng.randint(0, 2)), 0, 'v%d' % rng.randint(0, 3)])
+        elif r < 0.55: adds.append(['add', ('Other', 'Extra'), ('opt', 'k%d' % rng.randint(0, 2)), 0, rng.choice(['v%d' % rng.randint(0, 3), 'a:b', 'x > 1 ? 2 : 3', 'p=q:r', 'Pair:A-B=1'])])   # values with ':' and '=': the label ends at the FIRST '=' and its section at the first ':'
         elif r < 0.7: adds.append(['add', ('Tabulation',), ('opt', 'dr'), 0, '0.5'])
         elif items:   # invalid: exists already (possibly spelled differently)
             s, e = rng.choice(items); adds.append(['add', s, e['key'], rng.randint(0, 4), e['val']])
@@ -77,6 +77,7 @@ def replacement_value(rng, s, e):
     if s[0] == 'EAM-Embed': return rng.choice(sc.EMBED_DEFS)
     if s[0] == 'EAM-Density': return rng.choice(sc.DENS_DEFS)
     if s[0] == 'Tabulation': return {'nr': '12', 'cutoff': '7.0', 'nrho': '6', 'cutoff_rho': '20.0'}.get(e['key'][1], e['val'])
+    if s[0] == 'Potential-Form' and rng.random() < 0.5: return '(%s) + if(r > 100, 1, 0)*0 + (r > 1000 ? 1 : 0)*0' % e['val']      # the same function, written with a ':' in it
     return e['val']
 
 def gen_case(rng):
